@@ -113,10 +113,23 @@ def _verify(repo, ctab, spec, res):
     def go(s):
         entry = s.fork()
         ctx = SpecCtx(entry, old=entry)
+        E.requires_ids = set()
+        n_entry_pc = len(entry.pc)
         for (rn, rexpr) in list(spec.requires) + list(spec.assumes):
             f = E.speceval.formula(rexpr, ctx)
+            # well-formedness facts of the values the precondition reads in the entry state ("allocated at entry")
+            for wf in entry.pc[n_entry_pc:]:
+                s.assume(wf)
+                E.requires_ids.add(wf.get_id())
+            n_entry_pc = len(entry.pc)
             s.assume(f)
             s.assume(*ctx.side)
+            E.requires_ids.add(f.get_id())
+            for sf in ctx.side:
+                E.requires_ids.add(sf.get_id())
+            if z3.is_and(f):          # conjunctions are kept as a whole; remember the parts too
+                for c in f.children():
+                    E.requires_ids.add(c.get_id())
         entry = s.fork()
         E.entry_state = entry
         s.entry = entry
